@@ -440,6 +440,11 @@ impl<'a> Gen<'a> {
                 self.tag("empty-lot-note");
                 note = String::new();
             }
+            if self.r.chance(1, 4) && self.extend("lot-note-with-at-or-paren") {
+                // outside the documented [^()@]*: the parser must reject it
+                note.push(*self.r.pick(&['@', '(']));
+                note.push('x');
+            }
             parts.push(format!("({})", note));
         }
         self.r.shuffle(&mut parts);
